@@ -77,6 +77,23 @@ var c04Unused = []string{
 	"const {d%N = %P} = {};",
 	"const {d%N = %P} = {d%N: 1};",
 	"const [d%N = %P] = [];",
+	"const [d%N = %P] = [undefined];",
+	"const [d%N = %P] = [,];",
+	"const [d%N = %P] = [void 0];",
+	"const [d%N = %P] = [1];",
+	"const [d%N = %P] = [null];",
+	"const [e%N, d%N = %P] = [1, undefined];",
+	"const [e%N = 1, d%N = %P] = [1];",
+	"const [d%N = %P, ...r%N] = [undefined, 1];",
+	"const [[d%N = %P]] = [[undefined]];",
+	"const [d%N = %P] = [...[]];",
+	"const [d%N = %P] = 'ab';",
+	"var [d%N = %P] = [undefined];",
+	"let [d%N = %P] = [undefined, 2];",
+	"const {d%N = %P} = {d%N: undefined};",
+	"const {d%N = %P} = {d%N: void 0};",
+	"const {a%N: [d%N = %P]} = {a%N: [undefined]};",
+	"const {a%N: {d%N = %P}} = {a%N: {}};",
 	"const [d%N] = it;",
 	"const {d%N} = getter;",
 	"const {[%P]: d%N} = {};",
@@ -224,7 +241,7 @@ func c04StripOpt(l []string) (req []string, opt []string) {
 func c04Run(c *Check, pool *NodePool, w int, dir string, files map[string]string, label string, extra func(o *api.BuildOptions)) {
 	writeTree(dir, files)
 	defer os.RemoveAll(dir)
-	g := &ggraph{mods: []gmod{{"a", true, "exports"}}}
+	g := &ggraph{mods: []gmod{{"a", true, "exports", false}}}
 	cases := []graphCase{{Files: files, Entry: "a.mjs", How: "import"}}
 	var names []string
 	for _, cfg := range c04Cfgs {
